@@ -19,11 +19,11 @@ type monitor struct {
 }
 
 type mstream struct {
-	opener      string
-	accepted    bool
-	credit      map[string]uint64 // bytes a side may still send
-	closeWrite  map[string]bool
-	close       map[string]bool
+	opener     string
+	accepted   bool
+	credit     map[string]uint64 // bytes a side may still send
+	closeWrite map[string]bool
+	close      map[string]bool
 }
 
 func newMonitor(s *simkit.Sim) *monitor {
